@@ -752,8 +752,6 @@ class Machine(object):
             objs.append(obj)
         watch = [(i, o) for i, o in enumerate(objs) if isinstance(o, Cell) and o.init and not (
             o.name.lower() in gen or o.name.lower().startswith(("tmp_", "joy")))]
-        if not watch:
-            return
         tf = Frame(frame.proc, self)
         tf.types, tf.base = frame.types, frame.base
         args2 = []
@@ -774,6 +772,11 @@ class Machine(object):
         ok = True
         try:
             self.call_proc(tf, name, args2, self.lib[name]["proc"])
+        except B09RuntimeError as exc:
+            ok = False
+            if exc.code == 55:
+                # ... except a subscript outside an array of the procedure's own records: no display field decides that
+                self.shadow_subscript = getattr(self, "shadow_subscript", []) + [(name, exc.msg)]
         except Exception:  # noqa: BLE001 - whatever stops the shadow run only means: nothing learned
             ok = False
         finally:
